@@ -134,6 +134,9 @@ pub fn make_cfg(rng: &mut Rng, prof: &Profile, base: usize) -> HistCfg {
         }
     };
     let cap0 = match rng.below(7) { 0 => None, 1 => Some(0), 2 => Some(1), 3 => Some(3), 4 => Some(7), 5 => Some(28), _ => Some(rng.usize_below(universe as usize * 2 + 2)) };
+    // now and then a table of many megabytes under the same few entries (a large allocation behaves differently
+    // from a small one when it is freed, and thresholds on the table's size are reached)
+    let cap0 = if !cfg!(miri) && rng.below(64) == 0 { Some(60_000 + rng.usize_below(200_000)) } else { cap0 };
     let mut events = rng.range(prof.events.0, prof.events.1);
     // interpreters run four orders of magnitude slower: many short histories
     let (universe, max) = if cfg!(miri) { events = events.min(50); (universe.min(12), if !extreme && max > typical * 12 && max != usize::MAX { typical * rng.range(2, 10) } else { max }) } else { (universe, max) };
